@@ -53,6 +53,13 @@ def gen_cases(seed, tier):
             blk('School', 'contains("ACADEMY")', 'Education', [quoted, 'School', '{field.memo}']),
             blk('Tagger', 'contains("ACADEMY")', '', ['first', quoted, '{source}', 'Last'])]},
             'txns': [tx('ACADEMY FEES', 'Wire')]})
+    # corpus 1b: dynamic tags whose expression contains braces (regex quantifiers, braces in string literals)
+    for dyn in ('{extract(description, "ORDER (\\\\d{4})")}', '{extract("(\\\\d{2,4})")}', '{regex_replace(field.memo, "[a-z]{2,}", "x")}',
+                '{lowercase("{A}")}', '{"{big}" if amount > 50 else "small"}', '{ extract(description, "(\\\\d{4})") }'):
+        cases.append({'kind': 'rules', 'ds': None, 'file': {'vars': [], 'tfs': [], 'rules': [
+            blk('School', 'contains("ACADEMY")', 'Education', ['first', dyn, 'Last']),
+            blk('Tagger', 'contains("ORDER")', '', [dyn])]},
+            'txns': [tx('ACADEMY ORDER 2025', 'Wire')]})
     # corpus 2: statement rows identical in date/description/amount/location that differ only in a captured column, with
     # {field.memo} tags and tag-only rules conditioned on field.memo (.rules and legacy)
     rows = [tx('ACADEMY FEES', 'Wire'), tx('ACADEMY FEES', 'ACH-Batch7'), tx('ACADEMY FEES', 'Check', date='2025-01-06'),
